@@ -32,7 +32,7 @@ a segment boundary — that is the matcher's `isPrefix` mode) with length `len` 
 `caps`, and all its guards accept the request -/
 def Matches (matchPat : Matcher Pat) (req : Req) (n : Node Pat) (st : St) (len : Nat)
     (caps : List Cap) : Prop :=
-  matchPat n.pat n.isPrefix (unprocessed req st) = some (len, caps) ∧ GuardsOk req n.guards
+  matchPat n.pat n.isPrefix (unprocessed req st) = some (len, caps) ∧ GuardsOk (req.seen st) n.guards
 
 /-- `n` is passed over: its pattern does not match or a guard rejects -/
 def Rejects (matchPat : Matcher Pat) (req : Req) (n : Node Pat) (st : St) : Prop :=
@@ -49,11 +49,11 @@ the default service of the enclosing configuration, answers with `out`.
 inductive Serves (matchPat : Matcher Pat) (req : Req) : Node Pat → St → Target → Outcome → Prop
   | route {pat gs data routes dflt st inh} (pre : List Route) (r : Route) (post : List Route) :
       routes = pre ++ r :: post →
-      (∀ r' ∈ pre, ¬ GuardsOk req r'.guards) →
-      GuardsOk req r.guards →
+      (∀ r' ∈ pre, ¬ GuardsOk (req.seen st) r'.guards) →
+      GuardsOk (req.seen st) r.guards →
       Serves matchPat req (.resource pat gs data routes dflt) st inh ⟨.handler r.handler, st⟩
   | noRoute {pat gs data routes dflt st inh} :
-      (∀ r ∈ routes, ¬ GuardsOk req r.guards) →
+      (∀ r ∈ routes, ¬ GuardsOk (req.seen st) r.guards) →
       Serves matchPat req (.resource pat gs data routes dflt) st inh ⟨effDefault dflt .notAllowed, st⟩
   | child {pat gs data children dflt st inh out} (pre : List (Node Pat)) (c : Node Pat)
       (post : List (Node Pat)) (len : Nat) (caps : List Cap) :
@@ -91,15 +91,15 @@ theorem accept_eq_some {matchPat : Matcher Pat} {req : Req} {n : Node Pat} {st s
   | none => simp
   | some r =>
     obtain ⟨len, caps⟩ := r
-    by_cases hg : evalAll req n.guards = true
-    · have hg' := (evalAll_iff req n.guards).1 hg
+    by_cases hg : evalAll (req.seen st) n.guards = true
+    · have hg' := (evalAll_iff (req.seen st) n.guards).1 hg
       simp only [hg, if_true, Option.some.injEq]
       constructor
       · intro e; exact ⟨len, caps, ⟨rfl, hg'⟩, e.symm⟩
       · rintro ⟨l, c, ⟨e, _⟩, rfl⟩
         simp only [Prod.mk.injEq] at e
         obtain ⟨rfl, rfl⟩ := e; rfl
-    · have hg' : ¬ GuardsOk req n.guards := fun h => hg ((evalAll_iff req n.guards).2 h)
+    · have hg' : ¬ GuardsOk (req.seen st) n.guards := fun h => hg ((evalAll_iff (req.seen st) n.guards).2 h)
       simp only [hg]
       constructor
       · intro e; simp at e
@@ -285,7 +285,7 @@ theorem serve_sound (matchPat : Matcher Pat) (req : Req) :
     ∀ (n : Node Pat) (st : St) (inh : Target), Serves matchPat req n st inh (serve matchPat req n st inh)
   | .resource pat gs data routes dflt, st, inh => by
     rw [serve]
-    cases hf : firstRoute req routes with
+    cases hf : firstRoute (req.seen st) routes with
     | some h =>
       obtain ⟨pre, r, post, e, hpre, hr, rfl⟩ := firstRoute_eq_some.1 hf
       exact Serves.route pre r post e hpre hr
@@ -379,7 +379,7 @@ def Ends (matchPat : Matcher Pat) (req : Req) (lv0 : Level Pat) (fb0 : Target)
     (steps : List (Step Pat)) (out : Outcome) : Prop :=
   match finalLevel lv0 steps with
   | .res routes =>
-    out.target = match firstRoute req routes with
+    out.target = match firstRoute (req.seen out.st) routes with
       | some h => .handler h
       | none => finalFallback fb0 steps
   | .sc children =>
@@ -488,8 +488,7 @@ theorem walk_state {matchPat : Matcher Pat} {req : Req} {nodes : List (Node Pat)
 theorem walk_matches {matchPat : Matcher Pat} {req : Req} {nodes : List (Node Pat)} {st st' : St}
     {steps : List (Step Pat)} (h : Walk matchPat req nodes st steps st') :
     ∀ (pre : List (Step Pat)) (s : Step Pat) (post : List (Step Pat)), steps = pre ++ s :: post →
-      matchPat s.node.pat s.node.isPrefix (req.path.drop (st.skip + lensOf pre)) = some (s.len, s.caps) ∧
-      GuardsOk req s.node.guards := by
+      matchPat s.node.pat s.node.isPrefix (req.path.drop (st.skip + lensOf pre)) = some (s.len, s.caps) := by
   induction h with
   | nil => intro pre s post e; simp at e
   | @cons nodes st s rest st' hget hrej hm _ ih =>
@@ -498,7 +497,7 @@ theorem walk_matches {matchPat : Matcher Pat} {req : Req} {nodes : List (Node Pa
     | nil =>
       simp only [List.nil_append, List.cons.injEq] at e
       obtain ⟨rfl, _⟩ := e
-      simpa [lensOf, unprocessed, Matches] using hm
+      simpa [lensOf, unprocessed] using hm.1
     | cons p pre' =>
       simp only [List.cons_append, List.cons.injEq] at e
       obtain ⟨rfl, e'⟩ := e
@@ -780,6 +779,14 @@ theorem firstRouteIdx_isSome {req : Req} {routes : List Route} {i : Nat} :
     unfold firstRouteIdx firstRoute
     split <;> simp [ih]
 
+theorem walk_nil_eq {matchPat : Matcher Pat} {req : Req} {nodes : List (Node Pat)} {st st' : St}
+    (h : Walk matchPat req nodes st [] st') : st' = st := by
+  cases h; rfl
+
+theorem chain_nil_eq {matchPat : Matcher Pat} {req : Req} {nodes : List (Node Pat)} {st st' : St}
+    (h : Chain matchPat req nodes st [] st') : st' = st := by
+  cases h; rfl
+
 /-- **depth-first, registration order**: the walk the router takes is lexicographically minimal
 among all chains that end in a resource with an accepting route -/
 theorem walk_dfs_minimal {matchPat : Matcher Pat} {req : Req} {nodes : List (Node Pat)} {st st₁ st₂ : St}
@@ -789,8 +796,8 @@ theorem walk_dfs_minimal {matchPat : Matcher Pat} {req : Req} {nodes : List (Nod
     {pat pat' : Pat} {gs gs' : List Guard} {data data' : Option Nat} {routes routes' : List Route}
     {dflt dflt' : Option Nat}
     (hs : s.node = .resource pat gs data routes dflt) (ht : t.node = .resource pat' gs' data' routes' dflt')
-    {k j : Nat} {r : Route} (hk : firstRouteIdx req routes 0 = some k)
-    (hj : routes'[j]? = some r) (hr : GuardsOk req r.guards) :
+    {k j : Nat} {r : Route} (hk : firstRouteIdx (req.seen st₁) routes 0 = some k)
+    (hj : routes'[j]? = some r) (hr : GuardsOk (req.seen st₂) r.guards) :
     LexLe (w.map (·.idx) ++ [k]) (c.map (·.idx) ++ [j]) := by
   induction hw generalizing c st₂ with
   | nil => simp at hwl
@@ -820,6 +827,8 @@ theorem walk_dfs_minimal {matchPat : Matcher Pat} {req : Req} {nodes : List (Nod
             | nil => rfl
             | cons u hgetu _ _ => simp [Node.children] at hgetu
           subst hcr
+          rw [walk_nil_eq hw] at hk
+          rw [chain_nil_eq hcrest, ← hs] at hr
           simp only [List.getLast?_singleton, Option.some.injEq] at hcl
           subst hcl
           rw [hs] at ht
@@ -842,7 +851,7 @@ theorem walk_dfs_minimal {matchPat : Matcher Pat} {req : Req} {nodes : List (Nod
             | cons u hgetu _ _ _ => simp [Node.children] at hgetu
           | cons b' crest' =>
             rw [List.getLast?_cons_cons] at hcl
-            exact ih hcrest hwl hcl
+            exact ih hcrest hwl hcl hk hr
       · exact absurd hmb (hrej b.idx b.node hgt hgetb b.len b.caps)
 
 /-- the position found by `firstRouteIdx` holds the route `firstRoute` dispatches to -/
@@ -865,5 +874,35 @@ theorem firstRouteIdx_spec {req : Req} {routes : List Route} {i k : Nat}
       have : k - i = (k - (i + 1)) + 1 := by omega
       rw [this, List.getElem?_cons_succ]
       exact hr
+
+end ActixModel.Route
+
+namespace ActixModel.Route
+
+variable {Pat : Type}
+
+/-- what the guards of each step on a walk were shown: the request with the innermost marker among
+the containers of the start state and of the steps *before* it (its own container is pushed only
+after it has accepted) -/
+theorem walk_guards {matchPat : Matcher Pat} {req : Req} {nodes : List (Node Pat)} {st st' : St}
+    {steps : List (Step Pat)} (h : Walk matchPat req nodes st steps st') :
+    ∀ (pre : List (Step Pat)) (s : Step Pat) (post : List (Step Pat)), steps = pre ++ s :: post →
+      GuardsOk { req with data := (st.data ++ pre.filterMap (·.node.data)).getLast? } s.node.guards := by
+  induction h with
+  | nil => intro pre s post e; simp at e
+  | @cons nodes st s rest st' hget hrej hm _ ih =>
+    intro pre t post e
+    cases pre with
+    | nil =>
+      simp only [List.nil_append, List.cons.injEq] at e
+      obtain ⟨rfl, _⟩ := e
+      simpa [Req.seen] using hm.2
+    | cons p pre' =>
+      simp only [List.cons_append, List.cons.injEq] at e
+      obtain ⟨rfl, e'⟩ := e
+      have := ih pre' t post e'
+      cases hd : s.node.data with
+      | none => simpa [commit, hd] using this
+      | some d => simpa [commit, hd, List.append_assoc] using this
 
 end ActixModel.Route
